@@ -424,7 +424,7 @@ def id_templates(ctx, rule: str = "C08.id-template") -> None:
         ctx.rep.check(colh.spec == "02d", rule, c + "/pad", "column is zero-padded to two digits", f"well ID template `{stmt_key(js)}` pads the column with `:{colh.spec}`; every ID in the package (and the labware's index map) uses :02d", where=w)
         if letter is not None:
             ctx.rep.check(letter == "A", rule, c + "/row", "row-A key", f"constant row letter `{letter}`", where=w)
-    ctx.rep.floor(rule, "well-ID templates", len(sites), 8)
+    ctx.rep.floor(rule, "well-ID templates", len(sites), 3)  # 8 today; shared helpers legitimately reduce the number of sites
     # alphabet literals
     n_alpha = 0
     for m in ctx.prog.modules.values():
